@@ -269,7 +269,8 @@ def finalize(m, tier):
         "rule": "wallets of 1-8 keys (out of 10 generator keys; the rest are foreign) on generated chains; per wallet a "
                 "sequence of 1-10 spend requests with amounts below / exactly at / one above / far above the spendable total, "
                 "at single-output values and subset sums (+-1), fees 0..12345, optionally confirming pending spends in a new "
-                "block between calls; distinct = distinct (owned outputs, used record, amount, fee) by digest",
+                "block between calls; every sequence of 3/4 requests from a 19-request alphabet on a small wallet (exhaustive small "
+                "scope); distinct = distinct (owned outputs, used record, amount, fee) by digest",
         "floors": [("calls", c.get("calls", 0), 1000), ("returned", c.get("returned", 0), 300), ("raised", c.get("raised", 0), 200),
                    ("exact_no_change", c.get("exact_no_change", 0), 30), ("with_change", c.get("with_change", 0), 150),
                    ("multi_input", c.get("multi_input", 0), 100),
